@@ -208,6 +208,7 @@ impl Loader {
                 Some(s) => s,
             };
 
+            let is_include = matches!(stmt, Statement::Include(_));
             match stmt {
                 Statement::Include(in_path) | Statement::Subninja(in_path) => {
                     let id = self.evaluate_path(in_path, &[&parser.vars])?;
@@ -226,6 +227,11 @@ impl Loader {
                     self.include_stack.push(id);
                     self.parse_with_parser(&mut sub_parser, path, envs)?;
                     self.include_stack.pop();
+                    if is_include {
+                        // Unlike subninja, include shares the scope: bindings
+                        // made by the included file remain visible here.
+                        parser.extend_scope_from(&sub_parser);
+                    }
                 }
 
                 Statement::Default(defaults) => {
